@@ -84,10 +84,24 @@ def run(ctx):
                 'type (incl. same-scale units ha/xa); table-converted and money pairs.  Calc decides equality '
                 '(abstract key = type + exact reference value); the check demands x == y as specified and '
                 'hash(x) == hash(y), len({x, y}) == 1 whenever equal.')
-    ctx.assumptions = ['15-bit rational range of the TLC model', 'terms and exchange rates: see Terms / Money stages']
+    ctx.assumptions = ['15-bit rational range of the TLC model (quantities); big naturals (rates)']
     calcmodel.laws(ctx, 'ord')
     calccheck.run_programs(ctx, programs(ctx), 'hash/eq', sigfn=sig)
+    # terms: equal <=> same denotation, equal => same hash (Terms.tla)
+    from checks import c07, moneycheck
+    c07.judge(ctx, c07.eq_cases(ctx), 'terms-eq')
+    # exchange rates built from different inputs (Money.tla)
+    import random
+    moneycheck.judge(ctx, moneycheck.rate_eq_cases(ctx, random.Random(ctx.seed)), 'rates-eq')
 
 
 def replay(ctx, rp):
-    calccheck.replay(ctx, rp, sig)
+    k = rp['replay'].get('kind')
+    if k == 'terms':
+        from checks import c07
+        c07.replay(ctx, rp)
+    elif k in ('money', 'money-plain'):
+        from checks import c09
+        c09.replay(ctx, rp)
+    else:
+        calccheck.replay(ctx, rp, sig)
